@@ -6,6 +6,7 @@ import (
 	"reflect"
 	"strings"
 	"sync"
+	"time"
 
 	"sigs.k8s.io/structured-merge-diff/v6/fieldpath"
 	"sigs.k8s.io/structured-merge-diff/v6/merge"
@@ -27,14 +28,23 @@ func (idConv) IsMissingVersionError(error) bool { return false }
 func c10Program(seed int64, p *typed.Parser, types []reflect.Type) string {
 	r := rand.New(rand.NewSource(seed))
 	var sb strings.Builder
+	// the last two references carry an override that cannot apply (a scalar, a type without
+	// atom): they do not resolve, values typed with them are rejected, and the schema must
+	// be as usable afterwards as before
 	roots := []schema.TypeRef{nameRef("root"), nameRef("sub"), overrideRef("sub", schema.Atomic), nameRef("itemlist"),
-		overrideRef("itemlist", schema.Atomic), nameRef("item")}
+		overrideRef("itemlist", schema.Atomic), nameRef("item"), overrideRef("quantity", schema.Atomic),
+		overrideRef("hollow", schema.Separable)}
 	sc := &p.Schema
 	u := &merge.Updater{Converter: idConv{}}
 	for i := 0; i < 12; i++ {
 		tr := roots[r.Intn(len(roots))]
-		a := genValue(r, sc, tr, genMode{}, 3)
-		b := mutate(r, sc, tr, a, genMode{}, 3)
+		var a, b interface{}
+		if _, ok := sc.Resolve(tr); !ok {
+			a, b = "1", "2"
+		} else {
+			a = genValue(r, sc, tr, genMode{}, 3)
+			b = mutate(r, sc, tr, a, genMode{}, 3)
+		}
 		ta, err := typed.AsTyped(value.NewValueInterface(a), sc, tr)
 		if err != nil {
 			sb.WriteString("invalid;")
@@ -167,6 +177,25 @@ func freshTypes(round int, r *rand.Rand) []reflect.Type {
 	return out
 }
 
+// the kitchen schema with a named scalar type and a named type without atom
+const c10YAML = kitchenYAML + `- name: quantity
+  scalar: string
+- name: hollow
+`
+
+// waits for the workers; false when they are still not done after the time limit (a worker
+// stuck on a lock that another one left locked never finishes)
+func waitLimited(wg *sync.WaitGroup, limit time.Duration) bool {
+	done := make(chan struct{})
+	go func() { wg.Wait(); close(done) }()
+	select {
+	case <-done:
+		return true
+	case <-time.After(limit):
+		return false
+	}
+}
+
 func genC10(e *emitter, tier string) {
 	rounds := 12
 	if tier == "thorough" {
@@ -185,7 +214,7 @@ func genC10(e *emitter, tier string) {
 		tag := round*shardCount + shardIndex
 		types := freshTypes(tag*2, e.rng)
 		// concurrent run on a fresh parser
-		p1, err := typed.NewParser(typed.YAMLObject(kitchenYAML))
+		p1, err := typed.NewParser(typed.YAMLObject(c10YAML))
 		if err != nil {
 			panic(err)
 		}
@@ -206,15 +235,30 @@ func genC10(e *emitter, tier string) {
 			}(i)
 		}
 		close(start) // all workers hit the cold caches together
-		wg.Wait()
+		if !waitLimited(&wg, 120*time.Second) {
+			e.line(fmt.Sprintf("(c10.run %d %d f)", nw, nw*12))
+			return
+		}
 		// the same programs alone, on another fresh parser and other fresh types
-		p2, _ := typed.NewParser(typed.YAMLObject(kitchenYAML))
+		p2, _ := typed.NewParser(typed.YAMLObject(c10YAML))
 		types2 := freshTypes(tag*2+1, e.rng)
 		same := true
+		seqs := make([]string, nw)
+		var wg2 sync.WaitGroup
+		wg2.Add(1)
+		go func() {
+			defer wg2.Done()
+			for i := 0; i < nw; i++ {
+				seqs[i] = c10Program(seeds[i], p2, types2)
+			}
+		}()
+		if !waitLimited(&wg2, 120*time.Second) {
+			e.line(fmt.Sprintf("(c10.run %d %d f)", nw, nw*12))
+			return
+		}
 		for i := 0; i < nw; i++ {
-			seq := c10Program(seeds[i], p2, types2)
 			// type names differ between the two runs only in generated field names
-			if normalizeRound(seq, tag*2+1) != normalizeRound(conc[i], tag*2) {
+			if normalizeRound(seqs[i], tag*2+1) != normalizeRound(conc[i], tag*2) {
 				same = false
 			}
 		}
